@@ -212,12 +212,37 @@ func canonItemsDoc(items []fsItem, c *tok.Conc) string {
 	return sb.String()
 }
 
+// extStrings spells the model's extension SET as the list handed to WithFileExtensions: which extensions are in it is
+// all that matters, so the list is (depending on its content) sorted, or rotated, or has its first entry once more
+// at the end ("-e .go -e .md -e .go").
 func extStrings(exts [][]string, c *tok.Conc) []string {
 	out := []string{}
 	for _, e := range exts {
 		out = append(out, c.Seq(e))
 	}
 	sort.Strings(out)
+	if len(out) == 0 {
+		return out
+	}
+	h := 0
+	for _, e := range out {
+		for i := 0; i < len(e); i++ {
+			h = h*31 + int(e[i])
+		}
+		h += 7
+	}
+	if h < 0 {
+		h = -h
+	}
+	switch h % 3 {
+	case 1:
+		out = append(out[1:], out[0])
+	case 2:
+		out = append(out[1:], out[0], out[len(out)-1])
+		if len(out) > 2 {
+			out = append(out, out[1])
+		}
+	}
 	return out
 }
 
